@@ -295,6 +295,10 @@ class Stats:
 # one path
 
 
+import os as _os
+TRACE = bool(_os.environ.get('PYVC_TRACE'))
+
+
 class Path:
     """State of the path being executed: decision prefix, path condition,
     incremental solver, named symbolic inputs."""
@@ -360,8 +364,20 @@ class Path:
             self.pos += 1
             self.add(e if d else z3.Not(e))
             return d
+        _t0 = time.time()
         rt = self._check(e)
         rf = self._check(z3.Not(e))
+        if TRACE and time.time() - _t0 > 1:
+            import sys
+            sys.stderr.write('  branch %s/%s %.1fs: %s\n' % (
+                rt, rf, time.time() - _t0, str(z3.simplify(e))[:400]))
+            if time.time() - _t0 > 4 and _os.environ.get('PYVC_DUMP'):
+                n = len(_os.listdir(_os.environ['PYVC_DUMP']))
+                if n < 6:
+                    with open(_os.path.join(_os.environ['PYVC_DUMP'],
+                                            'slow_%d.smt2' % n), 'w') as f:
+                        f.write(self.solver.to_smt2())
+                        f.write('; cond: %s\n' % e.sexpr())
         if rt == z3.unsat and rf == z3.unsat:
             raise PathEnd()
         if rt == z3.unsat:
@@ -427,6 +443,9 @@ class Path:
         r = self.solver.check(z3.Not(e))
         self.solver.set('timeout', self.x.branch_timeout_ms)
         dt = time.time() - t0
+        if TRACE and dt > 1:
+            import sys
+            sys.stderr.write('  check %s: %s %.1fs\n' % (name, r, dt))
         ob.time_s += dt
         self.x.stats.solver_time += dt
         if r == z3.unsat:
@@ -568,6 +587,7 @@ class Explorer:
             p = Path(self, decisions)
             self.path = p
             self.stats.paths += 1
+            _t0 = time.time()
             try:
                 fn(p)
             except PathEnd:
@@ -581,4 +601,9 @@ class Explorer:
                                     list(p.decisions[:p.pos])))
             finally:
                 self.path = None
+                if TRACE:
+                    import sys
+                    sys.stderr.write('path %d: %d decisions, %.1fs %s\n' % (
+                        self.stats.paths, len(p.decisions[:p.pos]),
+                        time.time() - _t0, p.decisions[:p.pos]))
         return self
